@@ -4,6 +4,7 @@ import MosnVerif.Lemmas.PoolMuxSpec
 import MosnVerif.Lemmas.PoolH2Steps
 import MosnVerif.Lemmas.PoolWinWitness
 import MosnVerif.Lemmas.PoolMxWin
+import MosnVerif.Model.PoolDialWin
 /-!
 # C09 — upstream connection pools: exclusive leases, no leaks, no dirty reuse (property theorems only)
 
@@ -865,5 +866,124 @@ example : (drain 64 (run (init .mux 1 0) [.connect 0 true, .newStream 0 true, .t
 
 end MxNoLease
 /-! ### ===== END mux6 ===== -/
+
+/-! ### ===== pool10: events inside the dial / init / NewStream accounting windows ===== -/
+section DialWin
+open MosnVerif.Model.PoolDialWin MosnVerif.Gen.PoolDial MosnVerif.Gen.Pool
+
+def dwT : Nat → Int | 30 => 1 | 31 => -1 | _ => 0
+def dwH : Nat → Int | 22 => 1 | 20 => -1 | _ => 0
+def dwC : Nat → Int | 23 => 1 | 21 => -1 | _ => 0
+
+theorem dw_move_additive (mr : Int) (b : Books) (c : Nat) (h : c ≠ 32) :
+    (move mr b c).total = b.total + dwT c ∧ (move mr b c).cnH = b.cnH + dwH c ∧ (move mr b c).cnC = b.cnC + dwC c := by
+  unfold move
+  split
+  all_goals first
+    | exact absurd rfl h
+    | (simp [dwT, dwH, dwC]; done)
+    | (simp [dwT, dwH, dwC]; omega)
+    | (unfold dwT dwH dwC; split <;> split <;> split <;> simp_all)
+
+theorem dw_run_additive (mr : Int) (l : List Nat) (h : ∀ c ∈ l, c ≠ 32) (b : Books) :
+    (MosnVerif.Model.PoolDialWin.run mr b l).total = b.total + (l.map dwT).sum ∧ (MosnVerif.Model.PoolDialWin.run mr b l).cnH = b.cnH + (l.map dwH).sum ∧
+    (MosnVerif.Model.PoolDialWin.run mr b l).cnC = b.cnC + (l.map dwC).sum := by
+  induction l generalizing b with
+  | nil => simp [MosnVerif.Model.PoolDialWin.run]
+  | cons c l ih =>
+    have hm := dw_move_additive mr b c (h c (by simp))
+    have := ih (fun x hx => h x (by simp [hx])) (move mr b c)
+    simp only [MosnVerif.Model.PoolDialWin.run, List.foldl_cons, List.map_cons, List.sum_cons] at this ⊢
+    omega
+
+/-- the class of window programs the theorem is proved for: no guarded decrement, the dial counts +1 on the counter and
+both gauges, the close handler -1 -/
+def dwDialOk (dial close : List Nat) : Bool :=
+  dial.all (· != 32) && close.all (· != 32) &&
+  (dial.map dwT).sum == 1 && (dial.map dwH).sum == 1 && (dial.map dwC).sum == 1 &&
+  (close.map dwT).sum == -1 && (close.map dwH).sum == -1 && (close.map dwC).sum == -1
+
+theorem dialOk_regenerated : dwDialOk ppDialProg ppCloseProg = true := by decide
+
+/-- W1. Whatever the position `p` of the close handler inside the dial window (before the gauges, between them, before
+or after the counter's increment), the counter and both connection gauges end where they started: the connection that
+was closed before it was counted is not counted, nothing stays behind. (Every program of the class; the regenerated
+pair is in it.) -/
+theorem pp_dial_window_books_any (dial close : List Nat) (h : dwDialOk dial close = true) (mr : Int) (b : Books) (p : Nat) :
+    (dialClosedAtWith dial close mr b p).total = b.total ∧ (dialClosedAtWith dial close mr b p).cnH = b.cnH ∧
+    (dialClosedAtWith dial close mr b p).cnC = b.cnC := by
+  simp only [dwDialOk, Bool.and_eq_true, List.all_eq_true, bne_iff_ne, ne_eq, beq_iff_eq] at h
+  obtain ⟨⟨⟨⟨⟨⟨⟨hd, hc⟩, d1⟩, d2⟩, d3⟩, c1⟩, c2⟩, c3⟩ := h
+  have hall : ∀ c ∈ dial.take p ++ close ++ dial.drop p, c ≠ 32 := by
+    intro c hc'
+    simp only [List.mem_append] at hc'
+    rcases hc' with (h1 | h1) | h1
+    · exact hd c (List.mem_of_mem_take h1)
+    · exact hc c h1
+    · exact hd c (List.mem_of_mem_drop h1)
+  have hr := dw_run_additive mr _ hall b
+  have e : ∀ f : Nat → Int, ((dial.take p ++ close ++ dial.drop p).map f).sum = (dial.map f).sum + (close.map f).sum := by
+    intro f
+    have : (dial.map f).sum = ((dial.take p).map f).sum + ((dial.drop p).map f).sum := by
+      rw [← List.sum_append, ← List.map_append, List.take_append_drop]
+    simp only [List.map_append, List.sum_append]; omega
+  simp only [dialClosedAtWith]
+  rw [e, e, e] at hr
+  omega
+
+theorem pp_dial_window_books (mr : Int) (b : Books) (p : Nat) :
+    (dialClosedAt mr b p).total = b.total ∧ (dialClosedAt mr b p).cnH = b.cnH ∧ (dialClosedAt mr b p).cnC = b.cnC :=
+  pp_dial_window_books_any _ _ dialOk_regenerated mr b p
+
+/-- without a close the dial counts the connection once -/
+theorem pp_dial_counts_once (mr : Int) (b : Books) :
+    (MosnVerif.Model.PoolDialWin.run mr b ppDialProg).total = b.total + 1 ∧ (MosnVerif.Model.PoolDialWin.run mr b ppDialProg).cnH = b.cnH + 1 := by
+  have := dw_run_additive mr ppDialProg (by decide) b
+  have h1 : (ppDialProg.map dwT).sum = 1 := by decide
+  have h2 : (ppDialProg.map dwH).sum = 1 := by decide
+  omega
+
+-- non-vacuous: the counter passes through -1 inside the window
+example : (MosnVerif.Model.PoolDialWin.run 0 {} (ppDialProg.take 1 ++ ppCloseProg)).total = -1 := by decide
+-- negation witness: a decrement "guarded against underflow" skips the removal of the uncounted connection and the later
+-- increment sticks: the counter says 1 with no connection, and with max_connections = 1 no request is admitted again
+example : (dialClosedAtWith ppDialProg [20, 21, 32] 0 {} 1).total = 1 := by decide
+example : ppCanNew 1 (dialClosedAtWith ppDialProg [20, 21, 32] 0 {} 1).total = false := by decide
+
+/-- W2. `init` as it is (dial and store under `clientMux`, the close handler's delete under `clientMux` and by identity,
+a client told to go away is not stored): whatever event lands inside the dial, the slot never ends up holding a
+Connected client with a closed connection. -/
+theorem mux_init_never_stores_closed (ev : MxEv) : mxAfterInit ev ≠ some false := by
+  cases ev <;> decide
+
+theorem mux_init_never_stores_closed_any (dl sl cl sg : Bool) (h : dl = true ∧ sl = true ∧ cl = true ∧ sg = true) (ev : MxEv) :
+    mxAfterInitWith dl sl cl sg ev ≠ some false := by
+  obtain ⟨rfl, rfl, rfl, rfl⟩ := h
+  cases ev <;> decide
+
+example : mxAfterInit .none = some true := by decide
+-- negation witnesses: the dial outside the lock / a go-away client stored all the same
+example : mxAfterInitWith false true true true .close = some false := by decide
+example : mxAfterInitWith true true true false .goAway = some false := by decide
+
+/-- W3 (partial: the statement for ALL starting ledgers is `∀ b`; checked here by evaluation for max_requests 0..2 from
+the ledger of an idle pool and of a pool with one request in flight, every close position of the regenerated tail of
+NewStream, connection open or closed on entry): a refusal gives back exactly what was taken and the Requests resource
+ends non-negative. -/
+def dwNsLedgerOk (mr : Int) (b : Books) (closed : Bool) (ev : Option Nat) : Bool :=
+  let r := nsRun mr { b := b, connClosed := closed } ev
+  decide (r.b.q ≥ 0) && (if r.refused then r.b.q == b.q && r.b.rqH == b.rqH && r.b.rqC == b.rqC
+                         else r.b.rqH == b.rqH + 1 && r.b.rqC == b.rqC + 1)
+
+theorem pp_newstream_refusal_ledger_partial :
+    ∀ mr ∈ [(0 : Int), 1, 2], ∀ b ∈ [({} : Books), { q := 1, rqH := 1, rqC := 1 }], ∀ closed ∈ [true, false],
+      ∀ ev ∈ [none, some 0, some 1, some 2, some 3, some 4, some 5],
+        (decide (mr = 0) && decide (b.q ≠ 0)) || dwNsLedgerOk mr b closed ev = true := by decide
+
+-- negation witness: the closed test moved in front of the accounting gives back what was never taken
+example : (nsRunWith [50, 42, 51, 10, 11, 12, 43] ppCloseProg 1 { b := {}, connClosed := true } none).b.q = -1 := by decide
+
+end DialWin
+/-! ### ===== END pool10 ===== -/
 
 end MosnVerif.Props.C09
